@@ -520,6 +520,9 @@ type Outcome struct {
 	Refund  *big.Int // the state-rent refund of one self-destruct in this environment
 	Created *common.Address
 	Broken  string // non-empty: the post-state could not be hashed (e.g. a negative balance)
+	// PartialBalances: Before/After hold only the fee payer (a step of a block run that did not walk
+	// the account trie); oracles over the sum of balances do not apply
+	PartialBalances bool
 }
 
 // Run builds the world, executes the transaction and snapshots balances before and after.
